@@ -213,7 +213,7 @@ bool splinetable<Alloc>::write_key(const char* key, const T& value){
 		}catch(...){
 			throw std::runtime_error("Unable to allocate storage for additional aux key");
 		}
-		return (false);
+		return (true);
 	}
 	//otherwise, allocate more space and append
 	else {
